@@ -186,6 +186,7 @@ class Dim:
     cnt: str             # over globals and earlier index variables i0, i1 (count of values, may be <= 0 -> empty)
     step: int            # non-zero constant
     style: int = 0       # 0: lo..hi[..step]   1: inline-C bounds   2: local-index form [ii = 0 .. cnt-1] lo+ii*step
+    cnt_local: str = None   # when set, the count is first stored in a derived local of that name (declared between the parameters)
 
 
 @dataclass
@@ -528,6 +529,11 @@ def emit_jdf(prog, name, opts):
         L.append("")
         for d, dim in enumerate(cls.dims):
             cnt = subst(dim.cnt, i2p)
+            if dim.cnt_local:
+                # a derived local declared before the range that uses it (its value must survive the suspension /
+                # resumption of the chunked startup enumeration)
+                L.append("%s = %s" % (dim.cnt_local, simp(cnt)))
+                cnt = dim.cnt_local
             hi = "(%s)+((%s)-1)*%d" % (dim.lo, cnt, dim.step)
             if dim.style == 2:
                 L.append("%s = [ ii%d = 0 .. (%s)-1 ] (%s)+ii%d*%d" % (dim.name, d, cnt, dim.lo, d, dim.step))
